@@ -204,6 +204,13 @@ theorem findExactField_struct (c : Converter) (sfs : Fields) (name : Str.S) :
   unfold findExactField
   rw [findAllFields_struct]
 
+/-- the overlapping-definitions check of the Struct rule finds nothing: every method of the table has no raw field settings, or
+a signature without pointers (the check looks at signatures with a pointer on at least one side), or the signature of the method
+being built (which the check skips) -/
+def RawOK (cx : Ctx) (st : GState) : Prop :=
+  ∀ m ∈ st.methods, m.cfg.rawFieldSettings = [] ∨ (isPtrTy m.source = false ∧ isPtrTy m.target = false) ∨
+    (m.source = cx.sigSource ∧ m.target = cx.sigTarget)
+
 /-- no field setting applies at target `t`: the method has none, or `t` is not the method's `FieldsTarget` -/
 def FieldsOff (cx : Ctx) (t : Ty) : Prop := cx.cfg.fields = [] ∨ (cx.fieldsTarget == t) = false
 
@@ -224,7 +231,7 @@ structure StructPlain (cx : Ctx) (st : GState) (K : Nat) : Prop where
   fields : ∀ t, tySize t ≤ K → FieldsOff cx t
   autoMap : cx.cfg.autoMap = []
   noUpdate : cx.updateTarget = false
-  noRaw : ∀ m ∈ st.methods, m.cfg.rawFieldSettings = [] ∨ (isPtrTy m.source = false ∧ isPtrTy m.target = false)
+  noRaw : RawOK cx st
 
 theorem StructPlain.mono {cx : Ctx} {st : GState} {K K' : Nat} (h : K' ≤ K) (sp : StructPlain cx st K) : StructPlain cx st K' :=
   { sp with fields := fun t ht => sp.fields t (Nat.le_trans ht h) }
@@ -312,18 +319,25 @@ theorem beq_ptr_false {a b : Ty} (h : isPtrTy a = false) : (a == Ty.ptr b) = fal
   | false => rfl
   | true => have := Ty.eq_of_beq' hb; subst this; simp [isPtrTy] at h
 
+theorem ite_guard {α : Type} (G : Prop) [Decidable G] (A : Bool) (X Y : α) (h : G → A = false) :
+    (if G then (if A = true then X else Y) else Y) = Y := by
+  by_cases hG : G
+  · simp [hG, h hG]
+  · simp [hG]
+
 macro "overlap_none" hr:ident : tactic => `(tactic|
-  (intro x hx
+  (intro hG
+   apply any_false_of
+   intro x hx
    obtain ⟨m, hm, h1, h2⟩ := mem_lookupIndex hx
-   rcases $hr m (List.mem_of_getElem? hm) with h | ⟨hs, ht⟩
+   rcases $hr m (List.mem_of_getElem? hm) with h | ⟨hs, ht⟩ | ⟨e1, e2⟩
    · simp [hm, h]
-   · simp [hm, h1, h2, beq_ptr_false hs, beq_ptr_false ht]))
+   · simp [hm, h1, h2, beq_ptr_false hs, beq_ptr_false ht]
+   · rcases hG with hG | hG <;> simp [hm, h1, h2, e1, e2, hG]))
 
 theorem noLookup_struct (c : Converter) (f : Nat) (cx : Ctx) (mode : Mode) (pp : Bool) (path : List PathElem) (st : GState)
     (hu : cx.cfg.common.useUnderlying = false) (hsk : cx.cfg.common.skipCopySameType = false)
-    (hc : st.useCtor = false)
-    (hraw : ∀ m ∈ st.methods, m.cfg.rawFieldSettings = [] ∨ (isPtrTy m.source = false ∧ isPtrTy m.target = false))
-    (sfs tfs : Fields) :
+    (hc : st.useCtor = false) (hraw : RawOK cx st) (sfs tfs : Fields) :
     noLookup c (f+1) cx mode pp (.struct sfs) (.struct tfs) path st =
       if mode == .build && sfs.length == 0 && tfs.length == 0 then .ok (.ident, st)
       else structAssign c f cx mode.isUpdate pp (.struct sfs) (.struct tfs) path st := by
@@ -331,13 +345,13 @@ theorem noLookup_struct (c : Converter) (f : Nat) (cx : Ctx) (mode : Mode) (pp :
   simp [isStruct, isPtr, isBasic, isList, isMap, under, isEnumPair, enumMembers, typeMismatch, fail, bind, StateT.bind, Except.bind,
     pure, Except.pure, StateT.pure, get, getThe, MonadStateOf.get, StateT.get, throw, throwThe, MonadExceptOf.throw, StateT.lift, Ty.isNamed,
     withVar, hu, hsk]
-  rw [any_false_of (lookupIndex st.methods)]
+  rw [ite_guard]
   rotate_left
   · overlap_none hraw
-  rw [any_false_of (lookupIndex st.methods)]
+  rw [ite_guard]
   rotate_left
   · overlap_none hraw
-  rw [any_false_of (lookupIndex st.methods)]
+  rw [ite_guard]
   rotate_left
   · overlap_none hraw
   simp only [Bool.false_eq_true, if_false, ite_self, StateT.bind, bind, Except.bind, StateT.pure, pure, Except.pure]
